@@ -153,10 +153,9 @@ where
                                 }
                             }
 
-                            // Step 2: Share work.
-                            if pending.len() > 1 && thread_count > 1 {
-                                job_broker.split_and_push(&mut pending);
-                            }
+                            // Step 2: Share work. The market is consulted even when there is
+                            // nothing to share, so that a closed market (timeout) is noticed.
+                            job_broker.split_and_push(&mut pending);
                         }
                     })
                     .expect("Failed to spawn a thread"),
